@@ -825,6 +825,12 @@ func (u *Unit) specCall(env *specEnv, x *ast.CallExpr) Val {
 		fn := smtName("implements$iface{" + strings.Join(ms, ",") + "}")
 		u.decls.declFun(fn, []string{SInt}, SBool)
 		return boolVal(tAnd(tNot(tEq(v.S, "0")), tApp(fn, tApp("dyntype", v.S))))
+	case "errmatch":
+		// errmatch(err, target): what errors.Is(err, target) answers (the engine's err_is relation)
+		a := u.specEval(env, x.Args[0])
+		b := u.specEval(env, x.Args[1])
+		u.decls.declFun("err_is", []string{SInt, SInt}, SBool)
+		return scalar(tApp("err_is", a.S, b.S), SBool, types.Typ[types.Bool])
 	case "lastfv":
 		// lastfv(): the function value most recently called through a variable (calls the engine cannot resolve)
 		return scalar(tSel(u.heapTerm(env.st, "G$lastfv", sArr(SInt, SInt)), "0"), SInt, nil)
